@@ -83,6 +83,36 @@ pub fn classify_uint(atom: &[u8], w: usize) -> UintClass {
     UintClass::Ok(digits.first().copied().unwrap_or(0))
 }
 
+/// Number of bytes of the minimal form of a non-negative 64-bit value,
+/// derived from its bit length (a value with `n` significant bits needs
+/// `n + 1` bits once the sign bit is included, i.e. `n / 8 + 1` bytes).
+/// Deliberately not a threshold ladder. Added for C11's large sweeps, where
+/// the big-integer model is too slow; monitors cross-check it against
+/// `minimal_be` on samples and on every boundary window.
+pub fn minimal_len_u64(v: u64) -> usize {
+    if v == 0 {
+        0
+    } else {
+        (64 - v.leading_zeros() as usize) / 8 + 1
+    }
+}
+
+/// Fast minimal form of a u64: the form is `buf[start..]` of the returned pair.
+pub fn minimal_be_u64_fast(v: u64) -> ([u8; 9], usize) {
+    let mut buf = [0u8; 9];
+    let mut x = v;
+    for i in (1..9).rev() {
+        buf[i] = (x & 0xff) as u8;
+        x >>= 8;
+    }
+    (buf, 9 - minimal_len_u64(v))
+}
+
+/// Is `atom` the minimal form of the integer it denotes?
+pub fn is_minimal(atom: &[u8]) -> bool {
+    minimal_be(&decode_signed(atom)) == atom
+}
+
 #[cfg(test)]
 mod tests {
     use super::*;
@@ -102,5 +132,24 @@ mod tests {
         assert_eq!(classify_uint(&[0], 4), UintClass::Malformed);
         assert_eq!(classify_uint(&[1, 0, 0, 0, 0], 4), UintClass::TooBig);
         assert_eq!(classify_uint(&[0, 0xff, 0xff, 0xff, 0xff], 4), UintClass::Ok(0xffff_ffff));
+    }
+    #[test]
+    fn fast_u64_matches_bigint_model() {
+        let mut vals: Vec<u64> = vec![0, 1, u64::MAX];
+        for k in 0..64 {
+            let b = 1u64 << k;
+            for d in 0..4u64 {
+                vals.push(b.wrapping_add(d));
+                vals.push(b.wrapping_sub(d));
+            }
+        }
+        for v in vals {
+            let (buf, start) = minimal_be_u64_fast(v);
+            assert_eq!(&buf[start..], minimal_be_u64(v).as_slice(), "{v:#x}");
+            assert!(is_minimal(&buf[start..]));
+        }
+        assert!(!is_minimal(&[0]));
+        assert!(!is_minimal(&[0xff, 0x80]));
+        assert!(is_minimal(&[0xff, 0x7f]));
     }
 }
